@@ -51,6 +51,7 @@ type crashCtl struct {
 	wantFiles bool // C22: also recover every clone read-only and record the recovered version's tables
 	disabled  bool
 	jitter, inflight, passed atomic.Int64
+	durN         int // C13: durable-only reads taken (rotates the way the iterator is obtained)
 	fmvlo, fmvhi int // C40: format major version bounds a recovered store must respect
 }
 
@@ -180,7 +181,33 @@ func (c *crashCtl) durableRead() (Ev, error) {
 	for p := range rks {
 		rks[p] = []any{}
 	}
-	it, err := r.DB.NewIter(&pebble.IterOptions{KeyTypes: pebble.IterKeyTypePointsAndRanges, OnlyReadGuaranteedDurable: true})
+	// Three ways to an iterator carrying the option: NewIter with it, an ordinary (already used)
+	// iterator switched by SetOptions, and a Clone of an ordinary iterator given the option.
+	durOpts := &pebble.IterOptions{KeyTypes: pebble.IterKeyTypePointsAndRanges, OnlyReadGuaranteedDurable: true}
+	c.durN++
+	var it *pebble.Iterator
+	var err error
+	switch c.durN % 3 {
+	case 0:
+		it, err = r.DB.NewIter(durOpts)
+	case 1:
+		it, err = r.DB.NewIter(&pebble.IterOptions{KeyTypes: pebble.IterKeyTypePointsAndRanges})
+		if err == nil {
+			it.First()
+			it.SetOptions(durOpts)
+		}
+	default:
+		var base *pebble.Iterator
+		base, err = r.DB.NewIter(&pebble.IterOptions{KeyTypes: pebble.IterKeyTypePointsAndRanges})
+		if err == nil {
+			base.First()
+			it, err = base.Clone(pebble.CloneOptions{IterOptions: durOpts})
+			if cerr := base.Close(); err == nil && cerr != nil {
+				it.Close()
+				err = cerr
+			}
+		}
+	}
 	if err != nil {
 		return nil, err
 	}
